@@ -212,4 +212,6 @@ Definition out_eqb (a b : list obs * res) : bool :=
    reach the user after the last event?) *)
 Definition check_case (x : cfg * list ev * list (list obs * res) * bool) : bool :=
   let '(c, h, outs, live) := x in
-  list_beq out_eqb (run c init h) outs && Bool.eqb (fwd (final c init h)) live.
+  list_beq out_eqb (run c init h) outs && (* a status posted after the history reaches the user iff the facade still forwards and there is
+     a registered updater to post it *)
+  Bool.eqb (fwd (final c init h) && negb (length (protos c) =? 0)) live.
